@@ -252,6 +252,11 @@ def gen_election(rng, maxcand=40, maxlines=60):
             t = list(range(1, n + 1)); rng.shuffle(t); e['tie'] = t
         if rng.random() < 0.4:
             used = set(); e['nicks'] = [gen_nick(rng, used) for _ in range(n)]
+            if n >= 2 and rng.random() < 0.3:
+                # nicknames that look like numbers: a number that is a valid candidate id always means that candidate, so
+                # these are never used to refer to anybody (ref() below), they only sit in the [nick ...] list
+                perm = list(range(1, n + 1)); rng.shuffle(perm)
+                e['nicks'] = [str(x) for x in perm]
         if use_ids:
             used = set(); ids = []
             for _ in ballots:
@@ -329,7 +334,7 @@ def tokens_of(rng, e):
     t(num(rng, n)); t(num(rng, e['seats']))
     nick_on = [False]
     def ref(c):
-        if nick_on[0] and rng.random() < 0.6:
+        if nick_on[0] and rng.random() < 0.6 and not re.match(r'\d+$', e['nicks'][c - 1]):
             return e['nicks'][c - 1]
         s = num(rng, c)
         if s == '0': s = '00'
